@@ -106,7 +106,7 @@ theorem SubVal_refine (c : Ctx) (S : Bool) (k : Str) (nkp : List Str) (sk : Str)
   | .arr xs => by
     have h1 := A_refine c S [] (c.selArr xs) (nkp ++ [sk]) xs
     have h2 := PList_refine c S nkp xs
-    have h4 := A_refine c S [] (c.selArr xs) nkp xs
+    have h4 := FacetStages_refine c xs
     cases sm with
     | none => simp [run, node, SubVal, h1]
     | some mt =>
